@@ -16,6 +16,7 @@ RULE = ("Families of weight vectors over the same 12-40 real unit ids (str/int),
         "group) - across programs, labels and branches - have a non-empty intersection (widened by 1e-12). No reference hash "
         "is used. A second part locates a unit's grid point black-box (two-group ramps through the DSL) and evaluates a ramp in steps of 1e-7 of the hash space that straddles it (weights with 8-10 significant digits). Non-trivial = case in which at least one unit changes group along the family; distinct by (units, family, salt).")
 RULE += (' Since rounds 6-7: zero-padded and 1e-9-scaled spellings of the same shares; a refused deploy between two steps of the live evaluator.')
+RULE += (' Since rounds 14-15: 30-90 character weight spellings; ramps whose revisions alternately stand alone and sit inside a targeting condition (several splitters, fresh and long-lived evaluators).')
 ASSUMPTIONS = [
     "prefix shares are compared as exact Fractions of the source-text weights; intervals are widened by 1e-12 for float rounding",
 ]
